@@ -10,10 +10,13 @@ Record dparams := {
   unbox_in_try : bool;           (* args = self._unbox(args)   is inside the guarded region *)
   handler_in_try : bool;         (* the handler call           is inside the guarded region *)
   reply_encode_guarded : bool;   (* a reply that cannot be encoded is turned into an exception reply *)
-  exc_encode_guarded : bool      (* an exception payload that cannot be encoded is replaced by an encodable one *)
+  exc_encode_guarded : bool;     (* an exception payload that cannot be encoded is replaced by an encodable one *)
+  reraises_marked : bool         (* the except branch re-raises, instead of answering, an exception class the configuration marks for
+                                    local propagation: `if t is SystemExit and config[propagate_SystemExit_locally]: raise`, same for KeyboardInterrupt *)
 }.
 Definition std_params : dparams :=
-  {| unpack_in_try := true; unbox_in_try := true; handler_in_try := true; reply_encode_guarded := true; exc_encode_guarded := true |}.
+  {| unpack_in_try := true; unbox_in_try := true; handler_in_try := true; reply_encode_guarded := true; exc_encode_guarded := true;
+     reraises_marked := true |}.
 
 (* what happens while one request is served *)
 Inductive outcome :=
@@ -21,7 +24,9 @@ Inductive outcome :=
 | OBadArgs                       (* unboxing the arguments raises (bad label, stale id, ...) *)
 | ONoHandler                     (* unknown / unhashable handler id *)
 | OValue (encodable : bool)      (* the handler returned; can the boxed result be encoded? *)
-| ORaise (encodable : bool).     (* the handler raised; can the exception record be encoded? *)
+| ORaise (encodable : bool)      (* the handler raised; can the exception record be encoded? *)
+| ORaiseMarked.                  (* the handler raised SystemExit / KeyboardInterrupt and this connection's configuration marks that class
+                                    for local propagation (propagate_..._locally) *)
 
 Inductive frame := FReply (seq : Z) | FExc (seq : Z).
 Definition frame_seq (f : frame) : Z := match f with FReply s | FExc s => s end.
@@ -40,6 +45,7 @@ Definition serve_request (P : dparams) (seq : Z) (o : outcome) : served :=
   | OBadArgs => if unbox_in_try P then exc_path true 0 else unguarded 0
   | ONoHandler => if handler_in_try P then exc_path true 0 else unguarded 0
   | ORaise enc => if handler_in_try P then exc_path enc 1 else unguarded 1
+  | ORaiseMarked => if handler_in_try P then (if reraises_marked P then unguarded 1 else exc_path true 1) else unguarded 1
   | OValue true => {| sent := [FReply seq]; invoked := 1; crashed := false |}
   | OValue false => if reply_encode_guarded P then exc_path true 1 else unguarded 1
   end.
@@ -75,12 +81,12 @@ Definition req_step (s : req_state) (e : ev) : req_state :=
 Definition outcome_of_sx (x : sx) : outcome :=
   match x with
   | SL [SI 0] => OBadShape | SL [SI 1] => OBadArgs | SL [SI 2] => ONoHandler
-  | SL [SI 3; b] => OValue (sx_bool b) | SL [SI 4; b] => ORaise (sx_bool b) | _ => OBadShape
+  | SL [SI 3; b] => OValue (sx_bool b) | SL [SI 4; b] => ORaise (sx_bool b) | SL [SI 5] => ORaiseMarked | _ => OBadShape
   end%Z.
 Definition params_of_sx (x : sx) : dparams :=
   match x with
-  | SL [a; b; c; d; e] => {| unpack_in_try := sx_bool a; unbox_in_try := sx_bool b; handler_in_try := sx_bool c;
-                             reply_encode_guarded := sx_bool d; exc_encode_guarded := sx_bool e |}
+  | SL [a; b; c; d; e; f] => {| unpack_in_try := sx_bool a; unbox_in_try := sx_bool b; handler_in_try := sx_bool c;
+                                reply_encode_guarded := sx_bool d; exc_encode_guarded := sx_bool e; reraises_marked := sx_bool f |}
   | _ => std_params
   end.
 Definition sx_frame (f : frame) : sx := match f with FReply s => SL [SI 2; SI s] | FExc s => SL [SI 3; SI s] end.
